@@ -1,6 +1,7 @@
 (* Model/Graph.v — the lazy evaluation cache of ExcelCompiler (non-iterative
    mode), hand-transcribed from /repo/src/pycel/excelcompiler.py:
-     set_value / _reset            (lines 417-472)
+     set_value / _reset            (lines 417-473, with the two set_value repairs
+                                    e0ad119 and 761df50 of /repo)
      _evaluate / _evaluate_range   (lines 765-838)
      _gen_graph / _make_cells / _process_gen_graph (lines 708-763, 901-961)
 
@@ -60,14 +61,27 @@ Section Machine.
     end.
 
   (* ------------------------------------------------------------- set_value
-       if cell.value != value:
-           cell.value = value; self._reset(cell); cell.value = value *)
+       if cell.value != value or type(cell.value) is not type(value):
+           cell.value = value; self._reset(cell, force=True); cell.value = value
+     [_reset(cell, force=True)] skips the needs_calc early return for the
+     written cell itself (only for it: the recursive calls are not forced) *)
+  Definition same_type (a b : pyval) : bool :=
+    match a, b with
+    | VNone, VNone | VBool _, VBool _ | VInt _, VInt _ | VFloat _, VFloat _
+    | VStr _, VStr _ | VTuple _, VTuple _ | VList _, VList _ | VSet _, VSet _
+    | VDict _, VDict _ | VFun _, VFun _ => true
+    | _, _ => false
+    end.
+
+  Definition reset_forced (b : nat -> bool) (n : nat) (c : cache) : cache :=
+    fold_left (fun c ch => if is_none (c ch) then c else reset (wb_n W) b ch c)
+              (succs b n) (upd c n VNone).
+
   Definition set_value (s : state) (a : nat) (v : pyval) : state :=
     if negb (st_built s a) then s            (* AssertionError: not in the cell map *)
-    else if py_eq (st_cache s a) v then s
+    else if py_eq (st_cache s a) v && same_type (st_cache s a) v then s
     else
-      let c1 := upd (st_cache s) a v in
-      let c2 := reset (S (wb_n W)) (st_built s) a c1 in
+      let c2 := reset_forced (st_built s) a (upd (st_cache s) a v) in
       {| st_cache := upd c2 a v; st_built := st_built s |}.
 
   (* ------------------------------------------------------------- _evaluate
